@@ -526,6 +526,15 @@ func (n *Net) startRoundOne(i int, h int64) bool {
 	return false
 }
 
+// ForgedPOL picks the POL round a faulty proposer of `round` claims for a fresh block:
+// none, or any round from lo (a round in which correct nodes locked something else) up to round-1.
+func (n *Net) ForgedPOL(lo, round int32) int32 {
+	if round <= lo || n.R.Intn(2) == 0 {
+		return -1
+	}
+	return lo + int32(n.R.Intn(int(round-lo)))
+}
+
 // RecipeLockAttack is the classical attack on the locking rule: two correct
 // nodes A1, A2 lock and precommit B in round r; together with the faulty
 // precommits A1 decides B, while A2 and the third correct node A3 never see
@@ -670,6 +679,8 @@ func (n *Net) RecipeLockAttack() string {
 		}
 	}
 	// rounds r+1 .. r+4: whenever a faulty validator or an unlocked correct node proposes, push its block B'
+	// (a faulty proposer may claim any earlier round as the proposal's POL round: the lock round, whose polka was for B, included)
+	lockRound := round
 	for att := 0; att < 4; att++ {
 		round++
 		ok := true
@@ -688,7 +699,7 @@ func (n *Net) RecipeLockAttack() string {
 		prop2 := n.ProposerAt(n.Nodes[rest[0]], round)
 		if n.IsFaulty[prop2] {
 			if kb := n.ByzBlock(n.Nodes[others[0]], prop2, round, 13+att, ""); kb != nil {
-				msgs := n.ProposalMsgs(prop2, kb, h, round, -1)
+				msgs := n.ProposalMsgs(prop2, kb, h, round, n.ForgedPOL(lockRound, round))
 				for _, i := range rest {
 					n.Send(prop2, i, msgs...)
 				}
@@ -970,7 +981,7 @@ func (n *Net) RecipeRelockAttack() string {
 		p3 := n.ProposerAt(n.Nodes[c1], r3)
 		if n.IsFaulty[p3] && len(rest) > 0 {
 			if kb := n.ByzBlock(n.Nodes[rest[0]], p3, r3, 33+int(att), ""); kb != nil {
-				msgs := n.ProposalMsgs(p3, kb, h, r3, -1)
+				msgs := n.ProposalMsgs(p3, kb, h, r3, n.ForgedPOL(r0, r3))
 				for _, i := range goOn {
 					n.Send(p3, i, msgs...)
 				}
